@@ -5,6 +5,7 @@ use crate::common::*;
 use crate::nn::*;
 use crate::refmodel::*;
 use crate::Explored;
+use corgi::array::Array;
 use corgi::model::Model;
 use corgi::numbers::Float;
 use corgi::optimizer::gd::GradientDescent;
@@ -72,6 +73,8 @@ fn target_for(out_dims: &[usize], b: usize) -> Vec<f64> {
 struct RunOut {
     losses: Vec<Float>,
     params: Vec<(Vec<usize>, Vec<Float>)>,
+    /// what handles to earlier parameter generations (kept by the caller across the history) show wrongly
+    stale: Vec<String>,
 }
 
 fn steps_of(it: &Iter, nb: usize) -> Vec<(char, usize)> {
@@ -96,6 +99,11 @@ fn run_impl(m: &ModelCfg, hist: &[Iter], init_params: &[T]) -> Result<RunOut, St
         let gd = GradientDescent::new(m.lr as Float);
         let costf = m.cost.make();
         let mut losses = Vec::new();
+        // the caller keeps handles to the initial parameters: later iterations work on the current
+        // parameters only, so these must keep their values and end without a gradient
+        let held: Vec<Array> = layers.iter_mut().flat_map(|l| l.parameters().into_iter().map(|p| p.clone()).collect::<Vec<_>>()).collect();
+        let held_vals: Vec<Vec<Float>> = held.iter().map(|a| a.values().to_vec()).collect();
+        let mut updates = 0usize;
         {
             let refs: Vec<&mut dyn corgi::layer::Layer> = layers.iter_mut().map(|b| &mut **b as &mut dyn corgi::layer::Layer).collect();
             let mut model = Model::new(refs, &gd, &costf);
@@ -110,16 +118,31 @@ fn run_impl(m: &ModelCfg, hist: &[Iter], init_params: &[T]) -> Result<RunOut, St
                             let od = out_dims_ref(m, init_params, &x).expect("output dims");
                             losses.push(model.backward(arr(&od, &target_for(&od, b))));
                         }
-                        _ => model.update(),
+                        _ => {
+                            model.update();
+                            updates += 1;
+                        }
                     }
                 }
+            }
+        }
+        let mut stale = Vec::new();
+        let current: Vec<Array> = layers.iter_mut().flat_map(|l| l.parameters().into_iter().map(|p| p.clone()).collect::<Vec<_>>()).collect();
+        for (k, (h, v)) in held.iter().zip(&held_vals).enumerate() {
+            if h.values() != &v[..] {
+                stale.push(format!("the kept handle of initial parameter {} changed its values", k));
+            }
+            // once the parameter has been replaced by an update, later passes never reach the old array
+            let replaced = h.values().as_ptr() != current[k].values().as_ptr();
+            if replaced && updates >= 2 && h.gradient().is_some() {
+                stale.push(format!("the kept handle of initial parameter {} (replaced by an update) holds a gradient after later iterations", k));
             }
         }
         let params = layers
             .iter_mut()
             .flat_map(|l| l.parameters().into_iter().map(|p| (p.dimensions().to_vec(), p.values().to_vec())).collect::<Vec<_>>())
             .collect();
-        RunOut { losses, params }
+        RunOut { losses, params, stale }
     })
 }
 
@@ -304,6 +327,10 @@ pub fn explore(opts: &Opts) -> Explored {
                                 continue;
                             }
                         };
+                        if !got.stale.is_empty() {
+                            l.violation("stale-parameters", case(), got.stale.join("; "));
+                            continue;
+                        }
                         let mut h64 = 0xcbf29ce484222325u64;
                         for p in &got.params {
                             fnv(&mut h64, &digest_vals(&p.0, &p.1).to_le_bytes());
